@@ -48,13 +48,13 @@ def sibling_body(rng, names, kind=None):
         return {"StartAt": first, "States": {first: dict(F.T("inner"), Catch=[{"ErrorEquals": ["Inner.Err"], "ResultPath": "$.caught", "Next": handler}], End=True),
                                              handler: dict(F.T("sibslow"), End=True)}}
     if kind == "task":
-        return F.chain([(names(), F.T("sib"))])
+        return F.chain([(names(), F.task(rng, "sib"))])
     if kind == "chain":
-        return F.chain([(names(), F.T("sib")), (names(), F.P()), (names(), F.T("sib"))])
+        return F.chain([(names(), F.task(rng, "sib")), (names(), F.P()), (names(), F.task(rng, "sib"))])
     if kind == "wait":
-        return F.chain([(names(), F.W(rng.randint(1, 4))), (names(), F.T("sib"))])
+        return F.chain([(names(), F.W(rng.randint(1, 4))), (names(), F.task(rng, "sib"))])
     if kind == "slow":
-        return F.chain([(names(), F.T("sibslow")), (names(), F.T("sib"))])
+        return F.chain([(names(), F.task(rng, "sibslow")), (names(), F.task(rng, "sib"))])
     if kind == "instant":
         return F.chain([(names(), F.P())])
     inner = {"Type": "Parallel", "Branches": [F.chain([(names(), F.T("sib"))]), F.chain([(names(), F.W(2)), (names(), F.T("sib"))])]}
